@@ -84,6 +84,13 @@ func ParseWriteSingleCoilRequestTCP(data []byte) (*WriteSingleCoilRequestTCP, er
 	if err != nil {
 		return nil, err
 	}
+	if len(data) < 12 {
+		tmpErr := NewErrorParseTCP(ErrIllegalDataValue, "received data length too short to be valid packet")
+		tmpErr.Packet.TransactionID = header.TransactionID
+		tmpErr.Packet.UnitID = data[6]
+		tmpErr.Packet.Function = FunctionWriteSingleCoil
+		return nil, tmpErr
+	}
 	unitID := data[6]
 	if data[7] != FunctionWriteSingleCoil {
 		tmpErr := NewErrorParseTCP(ErrIllegalFunction, "received function code in packet is not 0x05")
